@@ -596,7 +596,8 @@ def rule_order(repo, rep):
     rep.check(ok, "C14-c", "ethosu/vela/tflite_writer.py:TFLiteSerialiser.__init__", "operator codes: sorted(set(...)) on the full (type, custom code, version) tuple", norm(oc[0].value)[:100] if oc else "")
     ss = tw.func("TFLiteSerialiser.serialise_subgraph")
     ts = [s for s in walk_no_nested(ss) if isinstance(s, ast.Assign) and norm(s.targets[0]) == "tensor_set"]
-    rep.check(len(ts) == 1 and call_name(ts[0].value) in ("dict.fromkeys", "OrderedDict.fromkeys"), "C14-c", "ethosu/vela/tflite_writer.py:TFLiteSerialiser.serialise_subgraph",
+    _dc = len(ts) == 1 and isinstance(ts[0].value, ast.DictComp) and isinstance(ts[0].value.key, ast.Name) and len(ts[0].value.generators) == 1 and norm(ts[0].value.generators[0].target) == ts[0].value.key.id
+    rep.check(len(ts) == 1 and (call_name(ts[0].value) in ("dict.fromkeys", "OrderedDict.fromkeys") or _dc), "C14-c", "ethosu/vela/tflite_writer.py:TFLiteSerialiser.serialise_subgraph",
               "the tensor collection is insertion ordered (dict.fromkeys), so equal-named tensors keep a history-independent order", norm(ts[0].value) if ts else "")
     # Tensor ordering falls back to uuid only after the name
     rep.floor("C14-c", 3)
